@@ -66,6 +66,8 @@ type State struct {
 	DagObjs map[string]*Object
 	Open    map[*Object]bool // ancestor walkers whose producer has not finished
 	Written map[*Object]bool // pre-existing objects that were stored to or havocked
+	CutEvents int // number of events recorded when the innermost cut loop was entered
+	LastReturn string
 }
 
 func (st *State) Top() *Frame { return st.Frames[len(st.Frames)-1] }
@@ -106,6 +108,7 @@ func (st *State) Clone() *State {
 	}
 	n.Notes = append([]string(nil), st.Notes...)
 	n.DagObjs = st.DagObjs
+	n.CutEvents = st.CutEvents
 	n.Written = make(map[*Object]bool, len(st.Written))
 	for k, v := range st.Written {
 		n.Written[k] = v
